@@ -1274,3 +1274,24 @@ M("c09_insert_str_ptr_cached_across_reserve", ["C09"], ["C09.R5"], [
         self.generic_reserve(additional_len)?;
         unsafe { stale.write(0) };""")])
 
+M("c14_as_non_dummy_guaranteed_shortcut", ["C14"], ["C14.R6"], [
+    ("src/raw_bump.rs", """    pub(crate) fn as_non_dummy(self) -> Option<NonDummyChunk<A, S>> {
+""", """    pub(crate) fn as_non_dummy(self) -> Option<NonDummyChunk<A, S>> {
+        if S::GUARANTEED_ALLOCATED {
+            return Some(NonDummyChunk { raw: self });
+        }
+""")])
+M("neg_c14_as_non_dummy_guaranteed_and_unclaimed", ["C14"], [], [
+    ("src/raw_bump.rs", """    pub(crate) fn as_non_dummy(self) -> Option<NonDummyChunk<A, S>> {
+""", """    pub(crate) fn as_non_dummy(self) -> Option<NonDummyChunk<A, S>> {
+        if S::GUARANTEED_ALLOCATED && !self.is_claimed() {
+            return Some(NonDummyChunk { raw: self });
+        }
+""")], negative=True)
+M("c14_reclaim_only_non_dummy", ["C14"], ["C14.R1"], [
+    ("src/raw_bump.rs", """        self.chunk.set(claimant.chunk.get());
+    }""", """        if let Some(chunk) = claimant.chunk.get().as_non_dummy() {
+            self.chunk.set(chunk.raw);
+        }
+    }""")])
+
